@@ -22,6 +22,7 @@ import json, re, datetime, concurrent.futures as cf
 import os
 from lib import coqrun
 from lib.coqrun import coq_str, coq_list, coq_bool, coq_opt
+from props import c18init
 
 META = {
     'id': 'C18',
@@ -33,18 +34,29 @@ META = {
                   'of whole operation traces with the implementation + direct predicates'),
     'design_ref': 'DESIGN.md section 4 C18',
     'theorems': ['C18_pure', 'C18_deterministic_region', 'C18_invariant', 'C18_reload', 'C18_overlay_value', 'C18_missing_all',
-                 'C18_environ_untouched', 'C18_priority_table', 'C18_lookup_source_tie'],
-    'tables': ['LetterCase', 'EnvLookupAlg'],
+                 'C18_environ_untouched', 'C18_priority_table', 'C18_lookup_source_tie',
+                 'C18_overlay_order_table', 'C18_field_decision_table', 'C18_kwarg_wins', 'C18_arg_overrides_meta',
+                 'C18_secret_values', 'C18_secrets_fs', 'C18_factory_fresh'],
+    'tables': ['LetterCase', 'EnvLookupAlg', 'EnvInitOrderAlg'],
     'level_text': ('Proved in Coq for ALL operation histories (instantiations of arbitrary classes with arbitrary '
                    'arguments, Env.reload at class creation, os.environ edits) over arbitrary environments: the cache '
                    'invariant holds in every reachable state, hence an instantiation with _reload=True resolves every '
                    'field to a source admitted by the pure documented-precedence specification on the current '
                    'os.environ overlaid with secrets and dotenv values (equal to it wherever the specification admits '
                    'one source; "one of" where several variables clean to the same key), reports all sourceless '
-                   'required fields together, and no library operation changes os.environ. Proved about an executable '
+                   'required fields together, and no library operation changes os.environ. Also proved: the ORDER of the '
+                   'generated __init__ (Env.reload/load_environ, secrets, Meta dotenv values, _env_file; per field keyword > '
+                   'lookup > default > default_factory() > missing) is read from the current source text of '
+                   'environ/wizard.py and lookups.py into tables, and interpreting the decoded tables IS the model '
+                   '(C18_overlay_order_table, C18_field_decision_table); keyword arguments win in every state without any '
+                   'lookup; _env_prefix/_secrets_dir/_env_file arguments replace the Meta settings completely; '
+                   'Env.secret_values over the file system (file name = variable, content verbatim, later directory wins, '
+                   'non-files and absent directories ignored, a file path -> ValueError with os.environ untouched); no two '
+                   'attributes in any history ever share a default_factory result. Proved about an executable '
                    'model that is re-validated against the implementation on every run (whole traces).'),
-    'level_note': ('Trusted: Coq kernel; the hand-written model (ASCII names; conversion by type, file system, '
-                   'python-dotenv parsing are outside the model and exercised by the harness only); the harness. '
+    'level_note': ('Trusted: Coq kernel; the hand-written model (ASCII names; conversion by type, python-dotenv parsing, '
+                   'directory listing / is_file / read_text themselves are outside the model and exercised by the harness '
+                   'only; what Env.secret_values does with their answers IS modelled); the harness. '
                    'F13, F21, F34, F37 are repaired in /repo; the theorems are unconditional.'),
     'rule': ('histories: random universes of 2-4 field base names with typed values, 1-3 classes (all four '
              'key_lookup_with_load settings, prefixes, env_field/json_field/field_to_env_var mappings with 1-3 candidate '
@@ -54,7 +66,12 @@ META = {
              '(class, arguments, environment) of an instantiate.'),
     'trusted_base': ['model coq/model/EnvModel.v (set iteration order abstracted: list order in the model, hash order in Python; '
                      'compared as "one of" where it matters)',
-                     'python-dotenv parsing and pathlib directory listing are exercised, not modelled'],
+                     'python-dotenv parsing and the pathlib primitives (iterdir, is_file, is_dir, exists, read_text) are exercised, '
+                     'not modelled; the logic of Env.secret_values over their answers is modelled (coq/model/EnvInit.v)',
+                     'decoders decode_preamble / decode_field of coq/model/EnvInit.v (generated line text -> step) and the '
+                     'translator harness/tables/EnvInitOrderAlg.py (fail-closed on any unexpected statement shape)',
+                     'default_factory stamps are an allocation count of the model; a ParseError that aborts the field loop '
+                     'midway (conversion, outside the model) is not generated in the stamp-compared stream'],
     'assumptions': ['variable and field names are ASCII (str.upper/lower are modelled on ASCII)',
                     'a field with an explicit mapping is looked up under its mapped name(s) only (reading of the documentation chosen by the check)',
                     'precedence between a secrets file and a dotenv entry of the same name is not documented: either is accepted by the direct predicate (the model pins dotenv-over-secrets, the current behaviour)'],
@@ -1273,16 +1290,40 @@ def run(ctx):
         b, j = divmod(k, chunk)
         rs = impl_b[b]['results'][3 * j + 1: 3 * j + 3]      # class, inst (after the reset)
         check_history(ctx, p, {'results': rs}, traces[len(hists) + k] if traces else None, stream='pure')
+    run_init_stream(ctx, quick)
     for b in impl_b + impl_h + impl_p:
         if b.get('leftover'):
             ctx.violation('temporary directory left behind by the runner', {'kind': 'harness'}, no_input=True)
     ctx.sample({'history': strip_history(hists[0]), 'impl_last': short(impl_h[0]['results'][-1])})
     ctx.sample({'pure': strip_history(pures[0]), 'impl': short(impl_b[0]['results'][2])})
-    ctx.extra_cov['streams'] = {'histories': len(hists), 'pristine_replays': len(hists), 'pure_cases': len(pures),
-                                'pure_interpreters': len(batches)}
+    ctx.extra_cov.setdefault('streams', {}).update({'histories': len(hists), 'pristine_replays': len(hists),
+                                                    'pure_cases': len(pures), 'pure_interpreters': len(batches)})
+
+
+def run_init_stream(ctx, quick):
+    """Stream C (props/c18init.py): secrets directories on the file system, argument-vs-Meta overrides, prefix
+    argument, default / default_factory; model coq/model/EnvInit.v."""
+    ri = ctx.sub_rng('init')
+    cases = [c18init.gen_case(ri, 'i%d' % i) for i in range(70 if quick else 600)]
+    with cf.ThreadPoolExecutor(max_workers=8 if quick else 14) as ex:
+        impls = list(ex.map(lambda h: ctx.impl('c18init', h, timeout=300), cases))
+    models = None
+    try:
+        outs = coqrun.coq_eval([c18init.coq_case(h) for h in cases], ['EnvInit'], os.path.join(ctx.workdir, 'c18init'),
+                               jobs=8 if quick else 14, timeout=900, shard=25)
+        models = [c18init.parse_case(s, parse_trace) for s in outs]
+    except Exception as e:
+        ctx.broken_tie('model evaluation failed (init stream): %s' % str(e)[:800])
+    for k, h in enumerate(cases):
+        ctx.hist('init_ops', len(h['ops']))
+        c18init.check_case(ctx, h, impls[k], models[k] if models else None)
+    ctx.sample({'init': cases[0], 'impl_last': c18init.short(impls[0]['results'][-1])})
+    ctx.extra_cov.setdefault('streams', {})['init_histories'] = len(cases)
 
 
 def replay(ctx, obj):
+    if obj.get('kind') == 'init':
+        return c18init.replay_case(ctx, obj)
     if obj.get('kind') == 'history' or 'history' in obj:
         h = obj['history']
         impl = ctx.impl('c18', h)
